@@ -15,6 +15,7 @@ import (
 type tEntry struct {
 	hdr  tar.Header
 	body string
+	pad  int64 // zero bytes after body (sparse source files)
 	w    int // index of the tar.Writer that wrote it (Pack calls may be nested by a harness hook)
 }
 
@@ -142,6 +143,11 @@ func model_tar_Reader_Next(tr *tar.Reader) (*tar.Header, error) {
 }
 
 // io.Copy between the channel and the model filesystem.
+// io.CopyBuffer moves the same bytes as io.Copy (the buffer is only scratch space).
+func model_io_CopyBuffer(dst io.Writer, src io.Reader, buf []byte) (int64, error) {
+	return model_io_Copy(dst, src)
+}
+
 func model_io_Copy(dst io.Writer, src io.Reader) (int64, error) {
 	switch d := dst.(type) {
 	case *tar.Writer: // Pack: file -> archive
@@ -157,7 +163,7 @@ func model_io_Copy(dst io.Writer, src io.Reader) (int64, error) {
 		if idx < 0 || vNodes[idx].kind == vDir {
 			return 0, vErr("read", vJoin(h.segs), vEISDIR)
 		}
-		data := vNodes[idx].data
+		data, pad := vNodes[idx].data, vNodes[idx].pad
 		if tFault("Copy") {
 			// a short copy: some prefix made it, then the error
 			return 0, &tChanErr{"Copy"}
@@ -166,11 +172,12 @@ func model_io_Copy(dst io.Writer, src io.Reader) (int64, error) {
 		for k := len(tOut) - 1; k >= 0; k-- {
 			if tOut[k].w == wi {
 				tOut[k].body += data
+				tOut[k].pad += pad
 				break
 			}
 		}
-		tCopied += int64(len(data))
-		return int64(len(data)), nil
+		tCopied += int64(len(data)) + pad
+		return int64(len(data)) + pad, nil
 	case *os.File: // Unpack: archive -> file
 		h := vHandles[d]
 		if h == nil || h.closed || !h.write {
